@@ -65,7 +65,28 @@ def nonempty_subsets(n):
     return out
 
 
-def build_spec(name, form, modes, rot, n, ph=None):
+def _np_scalar(v):
+    if isinstance(v, bool):
+        return np.bool_(v)
+    if isinstance(v, int):
+        return np.int64(v)
+    if isinstance(v, float):
+        return np.float64(v)
+    return v
+
+
+def build_spec(name, form, modes, rot, n, ph=None, pk=None):
+    spec = _build_spec(name, form, modes, rot, n, ph)
+    if pk == "numpy":  # the same values handed over as NumPy scalars (what np.all / np.ceil(...).astype(int) / a float array element give)
+        if form == "scalar":
+            return _np_scalar(spec)
+        if form == "list":
+            return [_np_scalar(v) if v is not None else None for v in spec]
+        return {k: _np_scalar(v) for k, v in spec.items()}
+    return spec
+
+
+def _build_spec(name, form, modes, rot, n, ph=None):
     """The python object passed as keyword `name`.  Unselected modes of a list carry ``None`` (the
     keyword's own 'not requested' value; ``validate_constraints`` tests list entries for truthiness)."""
     if form == "scalar":
@@ -285,6 +306,9 @@ class C11(Check):
                             for api in apis:
                                 yield {"kind": "single", "shape": shape, "data": group["data"], "rank": rank, "init": group["init"],
                                        "iters": iters, "api": api, "spec": [[name, form, modes, rot]], "seed": seed}
+                            if iters == [2, 5] and (form == "scalar" or len(modes) in (1, n)):
+                                yield {"kind": "single", "shape": shape, "data": group["data"], "rank": rank, "init": group["init"], "pk": "numpy",
+                                       "iters": iters, "api": "fn", "spec": [[name, form, modes, rot]], "seed": seed}
                             if iters == [2, 5]:
                                 # a constrained mode that is never updated (fixed_modes): its factor is the projected initialisation
                                 for fx in ([0], [n - 2]):
@@ -336,7 +360,7 @@ class C11(Check):
         n = len(shape)
         rank = case["rank"]
         spec_items = [(s[0], s[1], [int(m) for m in s[2]], s[3]) for s in case["spec"]]
-        kwargs = {name: build_spec(name, form, modes, rot, n, case.get("ph")) for name, form, modes, rot in spec_items}
+        kwargs = {name: build_spec(name, form, modes, rot, n, case.get("ph"), case.get("pk")) for name, form, modes, rot in spec_items}
         req = requested(spec_items, n)
         T = make_tensor(shape, case["data"], case.get("seed", 0))
         T0 = T.copy()
